@@ -443,11 +443,16 @@ func (vc *VC) evalAddr(st *State, x *ast.UnaryExpr) *Value {
 	case *ast.SelectorExpr, *ast.IndexExpr:
 		// address of a field / element: an opaque non-nil pointer; writes through it are not tracked
 		// (functions doing so must not be under a contract that depends on it).
-		vc.evalExpr(st, y) // safety obligations of the operand
+		loc := vc.evalLoc(st, y) // safety obligations of the operand
 		r := vc.fresh("addr", "Int")
 		st.assume(smtNot(smtEq(r, "0")))
-		vc.dropped["address of field/element at "+vc.w.pos(x.Pos())+" (opaque pointer)"] = true
-		return intV(r, T)
+		v := intV(r, T)
+		if !loc.isVar {
+			v.Addr = &loc // dependency specs may read / write the cell through deref()
+		} else {
+			vc.dropped["address of a field of a local struct at "+vc.w.pos(x.Pos())+" (opaque pointer)"] = true
+		}
+		return v
 	}
 	vc.unsupported(x, "address-of %T", x.X)
 	return nil
